@@ -457,7 +457,65 @@ def run_case(ci, spec, out):
             st["malformed"] = st.get("malformed", 0) + 1
     if spec["kind"] in ("mps", "mpo", "mpdm") and not spec["recipe"].startswith("near_") and out.get("scale_every", 1) and ci % out.get("scale_every", 1) == 0:
         scale_stream(c, obj, spec, n, is_op, keep_flags)
+    if n >= 2 and not spec["recipe"].startswith("near_") and ci % out.get("fault_every", 1) == 0:
+        fault_stream(c, obj, spec, n, is_op, keep_flags)
     return c
+
+
+def fault_stream(c, obj, spec, n, is_op, keep_flags):
+    """FAULT stream: CompressConfig.dump_matrix_size = 1 (every site tensor is spilled to disk) and numpy.save failing
+    from its k-th call on (disk full).  The documented behaviour is "working with the matrix in memory": canonicalise ->
+    lossless compress -> canonicalise must neither raise nor change the represented object."""
+    import errno
+    import shutil
+    import tempfile
+    from unittest import mock
+    st = c.out["stats"]
+    rng = random.Random(spec["seed"] + 41)
+    real_save = np.save
+    to_right = bool(obj.to_right) if keep_flags else rng.random() < 0.5
+    P = obj.copy() if keep_flags else set_direction(obj.copy(), to_right)
+    ref = G.dense(P)
+    for k_good in (0, rng.randint(1, 2 * n), rng.randint(2 * n + 1, 5 * n + 1), 10 ** 9):
+        dump_dir = tempfile.mkdtemp(prefix="c04_fault_")
+        calls = {"n": 0}
+
+        def flaky(fname, arr, *a, **kw):
+            calls["n"] += 1
+            if calls["n"] > k_good:
+                raise OSError(errno.ENOSPC, "No space left on device (simulated)")
+            return real_save(fname, arr, *a, **kw)
+        W = None
+        try:
+            with mock.patch("numpy.save", side_effect=flaky):
+                W = P.copy()
+                W.compress_config = CompressConfig(CompressCriteria.fixed, max_bonddim=1000, dump_matrix_size=1, dump_matrix_dir=dump_dir)
+                W.canonicalise()
+                lim = max(int(x) for x in W.bond_dims) + 1
+                W.compress(temp_m_trunc=lim)
+                W.canonicalise()
+                vec = G.dense(W)
+                ts = G.tensors(W)
+                centre, d_ = int(W.qnidx), bool(W.to_right)
+            st["fault_runs"] = st.get("fault_runs", 0) + 1
+            st["fault_saves_attempted"] = st.get("fault_saves_attempted", 0) + calls["n"]
+            e = relerr(vec, ref)
+            st["max_fault_relerr"] = max(st.get("max_fault_relerr", 0.0), e if np.isfinite(e) else 1e300)
+            if not e <= TOL:
+                c.fail("fault_dense", "disk full after %d writes" % k_good, {"relerr": e})
+            worst = 0.0
+            for j, a in enumerate(ts):
+                if j > centre and d_:
+                    worst = max(worst, site_iso(a, False, is_op))
+                if j < centre and not d_:
+                    worst = max(worst, site_iso(a, True, is_op))
+            if not worst <= TOL:
+                c.fail("fault_isometry", "disk full after %d writes" % k_good, {"max_deviation": worst})
+        except Exception as e:
+            c.fail("fault_raise", "disk full after %d writes" % k_good, {"exc": type(e).__name__, "msg": str(e)[:200], "tb": traceback.format_exc(limit=4)[-500:]})
+        finally:
+            W = None
+            shutil.rmtree(dump_dir, ignore_errors=True)
 
 
 SCALES = [1e-30, 1e-12, 1e-9, 1e-6, 1e6, 1e12, 1e30]
@@ -603,7 +661,7 @@ def main():
     payload = json.load(sys.stdin)
     install()
     out = {"ops": [], "fails": [], "stats": {}, "features": [], "label_budget": int(payload.get("label_budget", 0)),
-           "scale_every": int(payload.get("scale_every", 1))}
+           "scale_every": int(payload.get("scale_every", 1)), "fault_every": int(payload.get("fault_every", 1))}
     for ci, spec in payload["specs"]:
         try:
             run_case(ci, spec, out)
